@@ -251,7 +251,7 @@ class Run:
     def assume(self, cond):
         if cond is True:
             return
-        if cond is False:
+        if cond is False or (is_z3(cond) and z3.is_false(cond)):
             raise PathEnd()
         self.pc.append(cond)
 
@@ -311,6 +311,8 @@ class Run:
 
     # -- truthiness & coercions ------------------------------------------
     def truth(self, v):
+        if isinstance(v, SLazy):
+            v = self.interp.force(v)       # materialise: None or an object
         if v is None:
             return False
         if isinstance(v, bool):
@@ -545,6 +547,7 @@ class Interp:
         self.run = run
         self.ctx = run.ctx
         self.repo = run.ctx.repo
+        run.interp = self
 
     # -- names -------------------------------------------------------------
     def lookup(self, name, fr, node=None):
